@@ -1239,3 +1239,13 @@ Proof.
     destruct (negb (length (vmax_columns C vmax) =? C)); reflexivity.
   - apply Nat.eqb_neq in H. rewrite H. destruct (negb sg); reflexivity.
 Qed.
+
+Lemma c14_v_stock_diluent ideal stock vmax mt p :
+  plan_core ideal stock vmax mt = Ok p ->
+  v_stock p = Zsum (stock_vols_of p) /\
+  forall R, (v_diluent R p == inject_Z (Z.of_nat R) * Qsum vmax - inject_Z (v_stock p))%Q.
+Proof.
+  intro H. split; [exact (c14_v_stock _ _ _ _ _ H)|]. intro R.
+  destruct (proj1 (c14_complete ideal stock vmax mt) p H) as (Hv & _).
+  rewrite <- Hv. apply c14_v_diluent.
+Qed.
